@@ -122,6 +122,14 @@ def main(argv=None):
         return 0
 
     # ---------------------------------------------------------------- 1. proofs
+    # translators (model regenerated from /repo's current source) run before the Lean build
+    prebuild_problem = None
+    if hasattr(p, 'prebuild'):
+        try:
+            p.prebuild()
+        except Exception as e:
+            prebuild_problem = f'translator failed: {type(e).__name__}: {e}'
+            log(traceback.format_exc())
     if a.no_lean:
         lean = {'obligations': 0, 'discharged': 0, 'theorems': {}, 'problems': [], 'axioms_seen': []}
     else:
@@ -129,6 +137,7 @@ def main(argv=None):
     log('lean:', json.dumps(lean, indent=1))
     # optional generated-model step (translator) is part of the plugin's prebuild
     failures: list[Failure] = []
+    if prebuild_problem: lean['problems'].insert(0, prebuild_problem)
     for prob in lean['problems']:
         failures.append(Failure('proof', 'proof:' + slug(prob)[:60], prob))
 
